@@ -284,9 +284,9 @@ package keeper
 //@   flag noframe
 //@   flag pure=IsOperator,IsAVS,IsOptedIn,GetOrCalculateOperatorUSDValues,GetAVSMinimumSelfDelegation,IsOperatorFrozen,GetAVSSlashContract
 //@   flag havoc=InitOperatorUSDValue,SetOptedInfo
-//@   before[C05.oi.minself,C20.oi.minself] InitOperatorUSDValue requires !isnil(res_GetOrCalculateOperatorUSDValues_0.SelfUSDValue) && !isnil(res_GetAVSMinimumSelfDelegation_0) &&
+//@   before[C05.oi.minself,C20.oi.minself,C09.oi.minself] InitOperatorUSDValue requires !isnil(res_GetOrCalculateOperatorUSDValues_0.SelfUSDValue) && !isnil(res_GetAVSMinimumSelfDelegation_0) &&
 //@        val(res_GetOrCalculateOperatorUSDValues_0.SelfUSDValue) >= val(res_GetAVSMinimumSelfDelegation_0) && arg_avsAddr == avsAddr
-//@   before[C05.oi.minself,C20.oi.minself] SetOptedInfo requires val(res_GetOrCalculateOperatorUSDValues_0.SelfUSDValue) >= val(res_GetAVSMinimumSelfDelegation_0) &&
+//@   before[C05.oi.minself,C20.oi.minself,C09.oi.minself] SetOptedInfo requires val(res_GetOrCalculateOperatorUSDValues_0.SelfUSDValue) >= val(res_GetAVSMinimumSelfDelegation_0) &&
 //@        arg_avsAddr == avsAddr && arg_operatorAddr == accstr(operatorAddress)
 
 // ---------------------------------------------------------------------------------------------
@@ -455,3 +455,23 @@ package keeper
 //@   requires info != nil
 //@   modifies *info
 //@   ensures[C07.sjs.flag] info.Jailed == jailed
+
+// C07 (a replaced key that is still validating is found when its operator opts out, also after the opt-out was stamped):
+// the previous key of a REGISTERED operator on a chain that is an AVS is whatever is recorded for it - the operator's
+// opt-in state plays no part.
+//@ func (*Keeper).GetOperatorPrevConsKeyForChainID
+//@   flag noframe
+//@   flag pure=IsOperator,IsAVSByChainID,getOperatorPrevConsKeyForChainID
+//@   ensures[C07.gopck.registered] defined(res_IsOperator_0) && (res_IsOperator_0 && defined(res_IsAVSByChainID_0) && res_IsAVSByChainID_0 ==>
+//@        err == nil && defined(res_getOperatorPrevConsKeyForChainID_0) && r0 == res_getOperatorPrevConsKeyForChainID_0)
+
+// C09 (a voting-power update of one AVS that fails leaves no partial effect): the per-operator values and the AVS value
+// are written to a cache of the context, which is committed only after both the walk over the operators and the write
+// of the AVS value have succeeded.
+//@ func (*Keeper).UpdateVotingPower
+//@   flag noframe
+//@   flag pure=GetAVSSupportedAssets,GetAssetsDecimal,GetMultipleAssetsPrices,GetAVSMinimumSelfDelegation,Logger,Info,Error,Is
+//@   flag havoc=IterateOperatorsForAVS,SetAVSUSDValue,DeleteAllOperatorsUSDValueForAVS,DeleteAVSUSDValue
+//@   before[C09.uvp.cached]  IterateOperatorsForAVS requires arg_ctx.cell != ctx.cell
+//@   before[C09.uvp.cached2] SetAVSUSDValue requires arg_ctx.cell != ctx.cell
+//@   before[C09.uvp.commit]  writeCache requires defined(res_IterateOperatorsForAVS_0) && res_IterateOperatorsForAVS_0 == nil && defined(res_SetAVSUSDValue_0) && res_SetAVSUSDValue_0 == nil
